@@ -166,23 +166,25 @@ class LiaDomain:
                         return rt - rl
             raise Unsupported("lia: & with non-mask operand")
         if op == "|":
+            # a | b = a + b when a is a multiple of 2^k and 0 <= b < 2^k
+            cands = []
             for a, b in ((x, y), (y, x)):
-                # a multiple of 2^k, b < 2^k
-                blo, bhi = self.interval(st, b)
-                if bhi is None or blo < 0:
+                if not a.t:
+                    return b
+                k = min(((c & -c).bit_length() - 1) for c in a.t.values())
+                if k <= 0:
                     continue
-                k = bhi.bit_length()
-                cb = self.concrete(b)
-                if cb is not None:
-                    k = cb.bit_length()
-                if all(c % (1 << k) == 0 for c in a.t.values()):
-                    if cb is None:
-                        st.oblige("ordisjoint", site, ("<=", b, Poly.const((1 << k) - 1)), "low operand of | below 2^%d" % k)
-                    r = a + b
-                    st.oblige("nowrap", site, mk_and(("<=", Poly.const(lo), r), ("<=", r, Poly.const(hi))), "| as + fits")
-                    return r
-                # a < 2^k' and b multiple... handled by the swapped iteration
-            # x = r (mod 2^k) remainder atom and y constant multiple of 2^k
+                blo, bhi = self.interval(st, b)
+                fits = blo is not None and blo >= 0 and bhi < (1 << k)
+                cands.append((fits, k, a, b))
+            cands.sort(key=lambda t: (t[0], t[1]), reverse=True)
+            if cands:
+                fits, k, a, b = cands[0]
+                if not fits:
+                    st.oblige("ordisjoint", site, mk_and(("<=", Poly.const(0), b), ("<=", b, Poly.const((1 << k) - 1))), "low operand of | below 2^%d" % k)
+                r = a + b
+                st.oblige("nowrap", site, mk_and(("<=", Poly.const(lo), r), ("<=", r, Poly.const(hi))), "| as + fits")
+                return r
             raise Unsupported("lia: | of non-disjoint operands")
         if op in ("/", "%"):
             cy = self.concrete(y)
